@@ -2,7 +2,7 @@
    subsystem), theorems only.  Model: C06/Model.v ([step true] = the code with fixes/F06.patch,
    [step false] = the original code).  Each theorem is closed by a lemma of Proofs / Order / Limits /
    InOrder / Exact / Refute and followed by Print Assumptions. *)
-From CF Require Import Common.Bytes C06.Model C06.Proofs C06.Order C06.Limits C06.InOrder C06.Exact C06.Refute C06.DeckModel C06.DeckProofs C06.DeckRefute C06.InfoModel C06.InfoProofs C06.InfoEnum C06.InfoRefute C06.Wrapper.
+From CF Require Import Common.Bytes C06.Model C06.Proofs C06.Order C06.Limits C06.InOrder C06.Exact C06.Refute C06.DeckModel C06.DeckProofs C06.DeckRefute C06.InfoModel C06.InfoProofs C06.InfoEnum C06.InfoRefute C06.Wrapper C06.Reentrant.
 Open Scope Z_scope.
 
 (* ---------------------------------------------------------------- protocol limits *)
@@ -342,3 +342,45 @@ Theorem C06_tester_break_refuted :
   tester_new_data TBreak 7 [7; 8; 0] true true = (false, false, [true]).
 Proof. exact tester_break_refuted. Qed.
 Print Assumptions C06_tester_break_refuted.
+
+(* ---------------------------------------------------------------- re-entrant listeners *)
+(* C06/Reentrant.v: from inside EVERY notification of the read / write layer (delivered by a reply, an error status
+   or a link drop) the listener may issue a new read or write, as an arbitrary policy [pol n drop o] says (n-th
+   notification delivered so far, drop = delivered by the link-drop handler, o the notification).  [rrun false false] =
+   the code as it is: listeners are called after the write lock is released.  For every history and every policy: no
+   nested call starts with the write lock held ([RNest true] never occurs), no call blocks ([OHang] never occurs), the
+   lock is free at the end.  (Proved for both values of the flag fxl.) *)
+Theorem C06_listeners_run_lock_free : forall pol evs,
+  c_leaked (snd (fst (rrun false false pol (O, c_init) evs))) = false /\
+  Forall calm (snd (rrun false false pol (O, c_init) evs)).
+Proof. intros pol evs. apply listeners_run_lock_free. reflexivity. Qed.
+Print Assumptions C06_listeners_run_lock_free.
+
+(* With re-entrant listeners following any policy that makes no request on a dead link (no request from inside the
+   notifications of a link drop: such a request, like one made a moment after the drop, is outside "every request" —
+   nothing can answer it): after every history every request ever accepted is exactly one of pending / settled once. *)
+Theorem C06_reentrant_exactly_one_notification : forall pol evs,
+  no_request_on_dead_link pol ->
+  Ledger (snd (fst (rrun false false pol (O, c_init) evs))) (strip (snd (rrun false false pol (O, c_init) evs))).
+Proof. intros pol evs Q. apply (reentrant_exactly_one_notification false pol evs Q O c_init [] eq_refl ledger_init). Qed.
+Print Assumptions C06_reentrant_exactly_one_notification.
+
+(* Listeners called inside the locked region (the `with` block variant): a write retried from the write-failed
+   notification of a link drop blocks for ever on the non-re-entrant lock; the lock stays held. *)
+Theorem C06_listeners_inside_locked_region_refuted :
+  let r := rrun false true retry_write (O, c_init) [EWrite 2 0 [1; 2; 3] false; EDisc] in
+  In (RNest true) (snd r) /\ In (RO OHang) (snd r) /\ c_leaked (snd (fst r)) = true /\
+  In (RNest true) (snd (rrun true true retry_write (O, c_init) [EWrite 2 0 [1; 2; 3] false; EDisc])).
+Proof. exact listeners_inside_locked_region_refuted. Qed.
+Print Assumptions C06_listeners_inside_locked_region_refuted.
+
+(* Observation outside the property text: a read made from the read-failed notification of a link drop (a request on
+   a link that is already gone) is accepted (uid 1), handed to the dead link and wiped by _clear_state: neither
+   pending nor ever notified. *)
+Theorem C06_request_on_dead_link_observation :
+  let r := rrun false false retry_read (O, c_init) [ERead 1 0 5; EDisc] in
+  c_next (snd (fst r)) = 2 /\ pending (snd (fst r)) = [] /\ cnt 1 (settled (strip (snd r))) = 0 /\
+  c_next (snd (fst (rrun true false retry_read (O, c_init) [ERead 1 0 5; EDisc]))) = 1 /\
+  In (RO (ORet false)) (snd (rrun true false retry_read (O, c_init) [ERead 1 0 5; EDisc])).
+Proof. exact request_on_dead_link_observation. Qed.
+Print Assumptions C06_request_on_dead_link_observation.
